@@ -88,7 +88,7 @@ def stepC19 (s : Unit) (ws : List String) : Unit × Resp :=
     let g := gatherAni (fun _ _ _ _ _ => ((0.0 : Float), (0.0 : Float))) r k sc
       (nUniqueKmers mat.length sc) (calcCi == "1") (pconf conf)
     let tok (o : Option (Float × Float)) := if o.isSome then "same" else "none"
-    (s, { model := " ".intercalate
+    (s, { model := " ".intercalate <|
       [fb r.fOrigQuery, fb r.fMatchOrig, fb r.fUniqueToQuery, fb r.fMatch,
        fb g.queryContainmentAni, fb g.matchContainmentAni, fb g.averageContainmentAni,
        fb g.maxContainmentAni, tok g.queryCi, tok g.matchCi] })
